@@ -219,6 +219,23 @@ def check_config(cfg, w, rep):
     for k, v in sub.violations.items():
         rep.violation("reader:%s" % k, "an index written by another implementation of the format would be read differently — " + v.msg,
                       loc=v.loc, config=cfg, rule="reader/" + (v.rule or ""), witness=v.witness)
+    # ... and interprets the log as the format says: per key the LAST valid record in file order wins and a null integrity
+    # removes the key — in lookups (C05 b) and in the listing (C10 b-d). A library that picks by timestamp, or filters records
+    # textually, reads a reference-written history differently from the reference.
+    from . import c05, c10
+    from .c01 import find_fns
+    sub = Report("C05")
+    for p_ in sorted(find_fns(w)):
+        c05.check_find(cfg, w, sub, prog.fns[p_])
+    sub2 = Report("C10")
+    c10.check_config(cfg, w, sub2)
+    for tag, sb in (("lookup", sub), ("listing", sub2)):
+        for (c_, rule, k, desc, ok) in sb.obligations:
+            if ok:
+                rep.ob(cfg, "%s/%s" % (tag, rule), k, desc)
+        for k, v in sb.violations.items():
+            rep.violation("%s:%s" % (tag, k), "a history written by another implementation of the format would be interpreted differently — " + v.msg,
+                          loc=v.loc, config=cfg, rule="%s/%s" % (tag, v.rule or ""), witness=v.witness)
     # writer/reader agreement (sibling check): the reader validates with the same HASH_ENTRY role the writers use
     rep.count("descriptor_keys[%s]" % cfg, len(ORACLE))
     rep.floor("index_inserts", len(R.index_inserts), 2 if is_async else 1, cfg)
